@@ -288,6 +288,30 @@ fn gen_case(rng: &mut Rng) -> Case {
             body += "    for joined in join_iter(ja, jb) { let ((k1, x), (k2, y)) = joined; acc = acc + (x as u64) + (y as u64) + (k1 as u64); }\n";
         }
     }
+    // an array size written as an inline const expr `const { A - B + C }` whose intermediate result
+    // underflows (half of the time): evaluated by the compiler's second const evaluator (sizes of
+    // types); the substituted program gets the value computed here in wrapping arithmetic
+    let mut inline_size: Option<(String, i128)> = None;
+    if !single_array_main && g.rng.chance(1, 2) {
+        let (a_text, a) = match sizes.first() {
+            Some(sd) if g.rng.bool() => (sd.name.clone(), sd.value),
+            _ => {
+                let a = g.rng.below(4) as i128;
+                (format!("{a}usize"), a)
+            }
+        };
+        let target = 1 + g.rng.below(4) as i128;
+        let underflow = g.rng.bool();
+        let b = if underflow { a + 1 + g.rng.below(3) as i128 } else { g.rng.below(a as u64 + 1) as i128 };
+        let c = target + b - a;
+        if c >= 0 {
+            let text = if underflow || g.rng.bool() { format!("{a_text} - {b}usize + {c}usize") } else { format!("{c}usize + {a_text} - {b}usize") };
+            uses.insert(if underflow { "inline const-expr array size with an underflowing intermediate" } else { "inline const-expr array size" });
+            params.push("ia: [u8; INLINESIZE]".into());
+            body += "    for e in ia { acc = (acc ^ (e as u64)) << 1u8; }\n";
+            inline_size = Some((text, target));
+        }
+    }
     for d in defs.iter().filter(|d| d.ty != CTy::Int(ints::USIZE)) {
         match d.ty {
             CTy::Bool => {
@@ -306,7 +330,10 @@ fn gen_case(rng: &mut Rng) -> Case {
     for d in &defs {
         with_consts += &format!("const {}: {} = {};\n", d.name, d.ty.name(), show_ce(&d.expr, d.ty, &exts, &defs));
     }
-    with_consts += &fn_text;
+    with_consts += &match &inline_size {
+        Some((text, _)) => fn_text.replace("INLINESIZE", &format!("const {{ {text} }}")),
+        None => fn_text.clone(),
+    };
     // substituted program: identifiers replaced token-for-token by suffixed literals
     let mut substituted = String::new();
     let mut tok = String::new();
@@ -328,6 +355,9 @@ fn gen_case(rng: &mut Rng) -> Case {
         }
     }
     flush(&mut tok, &mut substituted);
+    if let Some((_, value)) = &inline_size {
+        substituted = substituted.replace("INLINESIZE", &value.to_string());
+    }
     Case { exts, defs, with_consts, substituted, uses, any_wrap }
 }
 
